@@ -1,6 +1,8 @@
 // Worker-side accumulation of counters / violations / samples, merged in the parent.
 #pragma once
+#include <cstring>
 #include <map>
+#include <set>
 #include <string>
 
 #include "core.hpp"
@@ -18,6 +20,16 @@ public:
     size_t keep_samples = 3;
     Emitter* live = nullptr;  // when set, violations are written out at once (survive a later crash of the worker)
 
+    // distinct-case accounting: workers report 64-bit hashes of the cases they evaluated, the parent merges them into sets
+    std::map<std::string, std::vector<uint64_t>> hashes;          // worker side, per class
+    std::map<std::string, std::set<uint64_t>> distinct;           // parent side, per class
+    void seen(const std::string& cls, uint64_t h) { hashes[cls].push_back(h); }
+    void seen(const std::string& cls, const std::string& s) { seen(cls, fnv1a(s.data(), s.size())); }
+    long long ndistinct(const std::string& cls) const
+    {
+        auto it = distinct.find(cls);
+        return it == distinct.end() ? 0 : (long long)it->second.size();
+    }
     void count(const std::string& name, long long k = 1) { counters[name] += k; }
     void violation(const std::string& key, const std::string& what, const std::string& case_id, Json detail = Json())
     {
@@ -58,8 +70,14 @@ public:
         Json ss = Json::array();
         for (auto& s : samples) ss.push(s);
         j["samples"] = ss;
+        if (!hashes.empty())
+        {
+            Json hs = Json::object();
+            for (auto& kv : hashes) hs[kv.first] = hex(kv.second.data(), kv.second.size() * 8);
+            j["hashes"] = hs;
+        }
         em.emit_json(j);
-        counters.clear(); vcount.clear(); violations.clear(); samples.clear();
+        counters.clear(); vcount.clear(); violations.clear(); samples.clear(); hashes.clear();
     }
     // parent: merge a line produced by flush()
     void merge_line(const std::string& line, Reporter& rep)
@@ -77,6 +95,18 @@ public:
             for (auto& kv : c->o) vcount[kv.first] += kv.second.i;
         if (auto* v = j.find("violations"))
             for (auto& x : v->a) rep.add_json(x);
+        if (auto* hs = j.find("hashes"))
+            for (auto& kv : hs->o)
+            {
+                std::string raw = unhex(kv.second.s);
+                auto& set = distinct[kv.first];
+                for (size_t p = 0; p + 8 <= raw.size(); p += 8)
+                {
+                    uint64_t h;
+                    memcpy(&h, raw.data() + p, 8);
+                    set.insert(h);
+                }
+            }
         if (auto* s = j.find("samples"))
             for (auto& x : s->a) if (samples.size() < 12) samples.push_back(x);
     }
